@@ -577,3 +577,114 @@ class FunctorCallBinding(Contract):
                 detail=f'{sig_txt}; bound earlier {list(sp)}; call with {npos} positionals, keywords {list(kws)}, '
                        f'switches given {"at construction and (opposite at construction) at the call" if ct else "at construction"}: '
                        + ('; '.join(bad) or 'as the rule says'))
+
+
+# ---------------------------------------------------------------------------
+# Late binding: `Functor._on_change` keeps the three argument books in step with
+# every rebind / attribute assignment.  `_specified_args` decides which bound
+# arguments a call replays (the others take the signature default), so an
+# argument bound late must be *specified* whatever its value -- also when the
+# value happens to compare equal to the default (True == 1, 0.0 == 0) -- and is
+# un-specified exactly when it is reset to the missing marker.
+#
+# The two comparisons of the body are opaque (user `__eq__`): they are named
+# Boolean unknowns EQ_DEFAULT / IS_MISSING, independent of each other, and the
+# clause is a formula over them.  One update per call; the loop body is
+# executed for a one-key path and for a deeper path (which must touch nothing).
+
+EQ_DEFAULT = z3.Bool('new_value_equals_field_default')
+IS_MISSING = z3.Bool('new_value_equals_MISSING_VALUE')
+
+
+@register
+class FunctorOnChangeBooks(Contract):
+  prop = 'C18'
+  target = f'{FN}:Functor._on_change'
+  raises = {Exception: ()}
+  variants = ('own-argument', 'deeper-path')
+
+  def inputs(self, b):
+    books = {n: SAny(n, label='book') for n in ('_specified_args', '_default_args', '_non_default_args')}
+    self_ = SObj(pg_functor.Functor, books, name='self')
+    upd = SAny('update')
+    upd.memo[('attr', 'new_value')] = SAny('new_value', label='new_value')
+    field = SAny('field')
+    field.memo[('attr', 'default_value')] = SAny('default_value', label='default_value')
+    vs = SAny('value_spec')
+    self._has_default = b.bool('has_default')
+    vs.memo[('attr', 'has_default')] = self._has_default
+    field.memo[('attr', 'value')] = vs
+    upd.memo[('attr', 'field')] = field
+    path = pg.KeyPath(['x']) if self.variant == 'own-argument' else pg.KeyPath(['x', 'y'])
+    return dict(self=self_, field_updates={path: upd}), {}
+
+  def setup_policy(self, policy):
+    def compare_any(interp, op, a, b, frame):
+      import ast as ast_
+      if op is not ast_.Eq:
+        return NotImplemented
+      labs = {getattr(a, 'label', None), getattr(b, 'label', None)}
+      if labs == {'default_value', 'new_value'}:
+        interp.path.event('compare', 'default', None)
+        return SBool(EQ_DEFAULT)
+      if 'new_value' in labs and (a is pg.typing.MISSING_VALUE or b is pg.typing.MISSING_VALUE):
+        interp.path.event('compare', 'missing', None)
+        return SBool(IS_MISSING)
+      return NotImplemented
+    policy.handlers[('compare_any',)] = compare_any
+
+    def call_opaque(interp, fn, args, kwargs, frame):
+      if fn.label == 'book':
+        book, op = fn.tag.rsplit('.', 1)
+        interp.path.event('book', f'{book}.{op}', interp.resolve(args[0]) if args else None)
+        return None
+      return NotImplemented
+    policy.handlers[('call_opaque',)] = call_opaque
+
+  def _ops(self, events):
+    return [(e.what, e.data) for e in events if e.kind == 'book']
+
+  def trace_late_bound_argument_is_specified_unless_reset_to_missing(self, events, outcome, interp, env):
+    if outcome[0] != 'return':
+      return False
+    ops = self._ops(events)
+    if self.variant == 'deeper-path':
+      return not ops                       # a change below an argument rebinds no argument
+    spec = [o for o in ops if o[0].startswith('_specified_args.')]
+    added = spec == [('_specified_args.add', 'x')]
+    dropped = spec == [('_specified_args.discard', 'x')]
+    return z3.If(IS_MISSING, z3.BoolVal(dropped), z3.BoolVal(added))
+
+  def trace_default_books_follow_the_comparison_with_the_default(self, events, outcome, interp, env):
+    if outcome[0] != 'return' or self.variant == 'deeper-path':
+      return True
+    ops = [o for o in self._ops(events) if not o[0].startswith('_specified_args.')]
+    back = set(ops) == {('_non_default_args.discard', 'x')}
+    back_d = set(ops) == {('_non_default_args.discard', 'x'), ('_default_args.add', 'x')}
+    away = set(ops) == {('_default_args.discard', 'x'), ('_non_default_args.add', 'x')}
+    hd = self._has_default.z if isinstance(self._has_default, SBool) else z3.BoolVal(bool(self._has_default))
+    return z3.If(EQ_DEFAULT, z3.If(hd, z3.BoolVal(back_d), z3.BoolVal(back)), z3.BoolVal(away))
+
+  def replay(self, obligation, m):
+    @pg.functor()
+    def _f(x=1, y=0):
+      return (x, y)
+    bad = []
+    for how in ('rebind', 'setattr'):
+      f = _f()
+      if how == 'rebind':
+        f.rebind(x=True, y=0.0)
+      else:
+        with pg.allow_writable_accessors(True):
+          f.x = True
+          f.y = 0.0
+      if set(f.specified_args) != {'x', 'y'}:
+        bad.append(f'{how}: x=True, y=0.0 bound late against defaults 1 / 0: specified_args = {sorted(f.specified_args)}')
+      r = f()
+      if r != (True, 0.0) or type(r[0]) is not bool or type(r[1]) is not float:
+        bad.append(f'{how}: call returns {r!r}, the function called directly with the bound values returns (True, 0.0)')
+      f.rebind(x=pg.MISSING_VALUE)
+      if 'x' in f.specified_args:
+        bad.append(f'{how}: x reset to MISSING_VALUE is still specified')
+    return dict(outcome='reproduced' if bad else 'not-reproduced',
+                detail='; '.join(bad) or 'late-bound arguments are specified whatever their value; reset un-specifies')
